@@ -108,6 +108,7 @@ class Project:
             if modname.endswith('.__init__'):
                 modname = modname[:-9]
             self.modules[modname] = Module(modname, rel, src)
+            self.modules[modname].project = self
         self.funcs = {}
         for m in self.modules.values():
             for q, f in m.funcs.items():
@@ -348,6 +349,11 @@ class Func:
                 and not any(isinstance(e, ast.Starred) for e in target.elts + value.elts):
             for t, v in zip(target.elts, value.elts):
                 self._defs_for_target(node, t, v, kind)
+            return
+        if isinstance(target, ast.Name) and kind == 'assign' and isinstance(value, ast.BinOp) \
+                and isinstance(value.left, ast.Name) and value.left.id == target.id \
+                and not any(isinstance(n, ast.Name) and n.id == target.id for n in ast.walk(value.right)):
+            self._add_def(node, target.id, 'aug', value.right, (), value.op)
             return
         if isinstance(target, (ast.Name, ast.Tuple, ast.List, ast.Starred)):
             for nm, path, _ in target_names(target):
@@ -703,8 +709,13 @@ def fold_bin(op, l, r):
 class TermBuilder:
     MAX_DEPTH = 40
 
-    def __init__(self, func, node_id, out=False, bound=None, depth=0):
+    def __init__(self, func, node_id, out=False, bound=None, depth=0, pbound=None, memo=None):
         self.f, self.nid, self.out, self.bound, self.depth = func, node_id, out, bound or {}, depth
+        self.pbound = pbound          # parameter bindings while a helper call is inlined
+        self.memo = memo if memo is not None else func._memo
+
+    def sub(self, node_id, bound=None):
+        return TermBuilder(self.f, node_id, False, bound, self.depth + 1, self.pbound, self.memo)
 
     def var(self, name):
         f = self.f
@@ -718,42 +729,81 @@ class TermBuilder:
             return ('g', q)
         ver = f.reaching(self.nid, name, self.out)
         key = (name, ver)
-        if key in f._memo:
-            return f._memo[key]
+        if key in self.memo:
+            return self.memo[key]
         t = ('v', name, ver)
         if len(ver) == 1 and self.depth < self.MAX_DEPTH:
             d = f.defs[ver[0]]
-            f._memo[key] = t          # cycle guard
+            self.memo[key] = t          # cycle guard
             e = self._expand(d)
             if e is not None:
                 t = e
-        f._memo[key] = t
+        self.memo[key] = t
         return t
 
     def _expand(self, d):
         f = self.f
         if d.kind == 'assign' and d.value is not None:
-            tb = TermBuilder(f, d.node, False, None, self.depth + 1)
-            t = tb.build(d.value)
+            t = self.sub(d.node).build(d.value)
             for i in d.path:
                 t = item(t, i)
             return t
         if d.kind == 'for':
-            tb = TermBuilder(f, d.node, False, None, self.depth + 1)
-            t = ('iter', tb.build(d.value), d.node)
+            t = ('iter', self.sub(d.node).build(d.value), d.node)
             for i in d.path:
                 t = item(t, i)
             return t
         if d.kind == 'param':
+            if self.pbound is not None and d.name in self.pbound:
+                return self.pbound[d.name]
             return ('v', d.name, 'P')
         if d.kind == 'aug' and d.value is not None:
-            tb = TermBuilder(f, d.node, False, None, self.depth + 1)
+            tb = self.sub(d.node)
             return fold_bin(_BINOPS[type(d.extra)], tb.var(d.name), tb.build(d.value))
         return None
 
     def def_term(self, def_id):
         """term of one definition (a component of a phi), or None when it has no expression"""
         return self._expand(self.f.defs[def_id])
+
+    def inline_call(self, e, fn_term, args, kws):
+        """f(args) -> the term of f's single return expression when f is a straight-line dsw helper"""
+        if fn_term[0] != 'g' or self.depth >= self.MAX_DEPTH:
+            return None
+        project = getattr(self.f.module, 'project', None)
+        if project is None:
+            return None
+        callee = project.resolve_func(fn_term[1])
+        if callee is None or callee is self.f or callee.cls is not None:
+            return None
+        if callee.name in project.exports:
+            return None         # public API functions are anchors, never looked through
+        body = callee.node.body
+        if body and isinstance(body[0], ast.Expr) and isinstance(body[0].value, ast.Constant):
+            body = body[1:]
+        if not body or not isinstance(body[-1], ast.Return) or body[-1].value is None:
+            return None
+        if not all(isinstance(st, ast.Assign) for st in body[:-1]) or len(body) > 6:
+            return None
+        if any(a[0] == 'star' for a in args) or any(k == '**' for k, _ in kws):
+            return None
+        callee.build()
+        binding = {}
+        for name, a in zip(callee.positional, args):
+            binding[name] = a
+        for k, v in kws:
+            if k not in callee.params:
+                return None
+            binding[k] = v
+        for p in callee.params:
+            if p not in binding:
+                if p in callee.defaults and isinstance(callee.defaults[p], ast.Constant):
+                    binding[p] = const(callee.defaults[p].value)
+                else:
+                    return None
+        ret = callee.node_of(body[-1])
+        tb = TermBuilder(callee, ret.id, False, None, self.depth + 1, binding, {})
+        return tb.build(body[-1].value)
 
     def build(self, e):
         b = self.build
@@ -770,6 +820,9 @@ class TermBuilder:
             fn = b(e.func)
             args = tuple(('star', b(a.value)) if isinstance(a, ast.Starred) else b(a) for a in e.args)
             kws = tuple(sorted(((k.arg or '**'), b(k.value)) for k in e.keywords))
+            inl = self.inline_call(e, fn, args, kws)
+            if inl is not None:
+                return inl
             return simplify_call(('call', fn, args, kws))
         if isinstance(e, ast.BinOp):
             return fold_bin(_BINOPS[type(e.op)], b(e.left), b(e.right))
@@ -804,7 +857,7 @@ class TermBuilder:
             base = len(bound)
             for i, a in enumerate(e.args.args):
                 bound[a.arg] = ('b', base + i)
-            tb = TermBuilder(self.f, self.nid, self.out, bound, self.depth)
+            tb = TermBuilder(self.f, self.nid, self.out, bound, self.depth, self.pbound, self.memo)
             return ('lambda', len(e.args.args), tb.build(e.body))
         if isinstance(e, ast.JoinedStr):
             return ('fstr',) + tuple(b(v) for v in e.values)
@@ -842,7 +895,7 @@ class TermBuilder:
                 for i in path:
                     t = item(t, i)
                 bound[nm] = t
-            tb = TermBuilder(self.f, self.nid, self.out, bound, self.depth)
+            tb = TermBuilder(self.f, self.nid, self.out, bound, self.depth, self.pbound, self.memo)
             conds = tuple(tb.build(c) for c in g.ifs)
             gens.append((it, conds))
         kind = {ast.ListComp: 'list', ast.SetComp: 'set', ast.GeneratorExp: 'gen', ast.DictComp: 'dict'}[type(e)]
